@@ -72,7 +72,7 @@ pub fn transform(ops: &[Op], rng: &mut Rng, kind: u64) -> Vec<Op> {
         }
     }
     // injective relabelling of the resource universe
-    let mut univ: Vec<Res> = (0..NTY).flat_map(|t| (0..NDY).map(move |d| (t, d))).collect();
+    let mut univ: Vec<Res> = (0..NTY).flat_map(|t| (0..NDY.max(18)).map(move |d| (t, d))).collect();
     let fixed: Vec<Res> = if has_ctl_data(ops) { vec![(0, 0), (1, 0), (2, 0), (3, 0), (4, 0), (5, 0)] } else { vec![] };
     univ.retain(|r| !fixed.contains(r));
     let mut img = univ.clone();
@@ -113,7 +113,7 @@ pub fn run(args: &Args, rep: &mut Report) {
         todo.push(("replay".into(), Op::parse(&lines)));
     } else {
         for c in 0..cases {
-            let prof = ["plan", "batch", "funnel", "deps", "wide"][(c % 5) as usize];
+            let prof = ["plan", "batch", "funnel", "deps", "wide", "manyres"][(c % 6) as usize];
             let mut cfg = GenCfg::profile(prof);
             cfg.p_dup_name = 0;
             cfg.p_unknown_dep = 0;
@@ -153,6 +153,26 @@ pub fn run(args: &Args, rep: &mut Report) {
         if rep.samples.is_empty() && r0.layout.as_ref().map(|l| l.nontrivial()).unwrap_or(false) {
             let mut rng = Rng::new(seed ^ 0x1417, k as u64);
             rep.sample(Json::obj(vec![("original", Json::Arr(case_lines(ops).into_iter().map(Json::s).collect())), ("transformed_twin", Json::Arr(case_lines(&transform(ops, &mut rng, 7)).into_iter().map(Json::s).collect())), ("layout_of_both", Json::s(l0.clone()))]));
+        }
+        if !mdiff.is_empty() && !reported {
+            // the model lays this sequence out differently: look harder for a twin of this very
+            // sequence that the real builder lays out differently from the original (a concrete
+            // failing input for C19) before settling for the disagreement
+            let mut r = Rng::new(seed ^ 0x77aa, k as u64);
+            for _ in 0..24 {
+                let kind = *r.pick(&[2u64, 4, 6, 7]);
+                let twin = transform(ops, &mut r, kind);
+                let (l1, _) = layout_of(&twin, None, &pool);
+                rep.count("extra_twins_after_model_disagreement");
+                if l1 != l0 {
+                    reported = true;
+                    let mut lines = case_lines(ops);
+                    lines.push("# twin:".into());
+                    lines.extend(case_lines(&twin).into_iter().map(|l| format!("# {}", l)));
+                    rep.violate("C19", "impl", "", format!("a relabelled / permuted twin of the sequence (appended to the case as comments) is laid out differently: {} vs {} [{}]", l0, l1, label), lines);
+                    break;
+                }
+            }
         }
         for d in mdiff {
             if !reported {
